@@ -38,6 +38,40 @@ CLAIMED["C16"] = dict(
     text="Real ConcurrentExecutionQueue (capacity 1-4) with 1-3 producers, inplace / real thread-pool / new-thread executors and a faulty executor that refuses drawn launch attempts and later recovers (fault sequence from the plan); join() and signal_push_event() racing with producers. Oracles: every item consumed exactly once, per producer in order, consume function never active twice, execute/signal return values consistent with refusals, join() covers everything submitted before it (happens-before judged), no stranded items at quiescence, final drain after the healthy signal. One genuine defect is listed as known finding (join returns early behind an in-flight smaller ticket).",
     ref="§3 C16", technique="deterministic simulation: seeded schedule + executor-fault search, exactly-once/order ledger, quiescence oracle")
 
+CLAIMED["C03"] = dict(
+    text="Real ConcurrentFixedSwissTable / ConcurrentTransientHashSet / Map in two build flavours (as shipped: 16-byte SIMD group load; with babylon's own TSan branch: 16 relaxed byte loads, a reader can see a group half-updated) under an adversarial hasher (colliding groups, equal 7-bit tags), default-constructed placeholder and small initial bucket counts, fill-to-full and chained growth, with scheduling points on control bytes and value storage. History oracle per key: exactly one winner, same address and fully constructed content for every observer, no miss after an ordered-before insertion (happens-before judged under store buffers), full fixed table leaves arguments untouched, one in-table construction per winner; quiescent iteration/size. Two genuine defects found (fixed).",
+    ref="§3 C03", technique="deterministic simulation: seeded schedule search in two instrumentation flavours, per-key history oracle")
+CLAIMED["C04"] = dict(
+    text="Real ConcurrentVector (static and dynamic block sizes incl. 1) with 2-4 threads racing for the same new blocks, kept snapshots, gc(), and a virtual clock started near 64 s unit boundaries and near the 16-bit timestamp wrap, jumped by 0-200 s between rounds; a directed mode stalls one thread for > 64 s between reading the clock and publishing its retire node. Oracles: index->address map, constructor/destructor ledger by address (speculative blocks of CAS losers included), cooling period measured from a watchpoint on the block table to the simulated heap's free time, use-after-free through kept snapshots, heap balance. One genuine defect found (fixed).",
+    ref="§3 C04", technique="deterministic simulation: seeded schedule + virtual clock history search (jumps, wrap), ledger and cooling-period oracle")
+CLAIMED["C05"] = dict(
+    text="Random acyclic graphs built through the real GraphBuilder (conditional and essential dependencies, fan-in/out, trivial vertices, asynchronously completing processors), run on the inplace executor, the real thread-pool executor and a thread-per-vertex executor under the simulator, inputs injected before or concurrently with run(), 1-3 run/reset cycles; oracle = a sequential demand-driven reference interpreter (values, emptiness, error code, needed set), at-most-once and dependencies-resolved checks inside the processor, publish-once, wait() vs in-flight vertices, closure vertex count, HB race detector on data payload, reset state. One genuine defect is listed as known finding (vertex started on an already flushed closure after a late external injection).",
+    ref="§3 C05", technique="deterministic simulation: seeded graph/schedule search against a sequential reference interpreter")
+CLAIMED["C06"] = dict(
+    text="Exclusive / Shared / Swiss monotonic resources on a recording page allocator (page sizes 128-4096, LIFO-recycling or always-fresh) and a recording upstream resource; request histories with sizes and alignments around every boundary, register_destructor, contains, release and moves at quiescent points, waves of worker threads that exit so thread-local slots are recycled (shared variants under the scheduler; the exclusive variant has no schedule and is the 1-thread case of the same ledger). Oracle: alignment, containment in owned memory, interval map (no overlap), per-block patterns re-verified, destructors/pages/oversize blocks returned exactly once with original size and alignment, accounting zero after release. Four genuine defects found (fixed).",
+    ref="§3 C06", technique="deterministic simulation: seeded request-history + schedule search with recording allocators (ledger oracle)")
+CLAIMED["C11"] = dict(level="fault_enumeration", engine="serial",
+    text="Stream-fault harness without scheduler (there are no threads or clocks in this property): the environment is the byte stream the parser consumes, owned by the harness through ZeroCopyInput/OutputStream. 84 value shapes incl. protobuf messages; oracle 1: round trip, exact size, stable output, 18 presentations (flat, string, stream chunkings 1/2/3/7/random/zero-size buffers, with and without enclosing limit), protobuf differential in both directions incl. unknown/permuted/absent fields; oracle 2: truncation at every prefix for encodings <= 256 bytes (drawn above), byte flips, length inflation up to 2^64-1, wire-type swaps, nesting, Next() failure, splices, random bytes: parse must terminate, no ASan report, no read beyond the limit, success implies serialize/parse fixpoint. Debug and NDEBUG builds, ASan+UBSan. Three genuine defects fixed, one listed as known finding.",
+    ref="§3 C11", technique="stream fault injection (chunking, truncation, corruption, Next() failure) with seeded enumeration, ASan/UBSan, differential and fixpoint oracles")
+CLAIMED["C14"] = dict(
+    text="Real IdAllocator (head version preset near wrap as a legal history prefix), ThreadId over generations of thread birth/death, and DepositBox with recycled slots and stale ids, ids handed between threads only through synchronising channels; oracles: held-set uniqueness at the moment of return, reuse of freed values, for_each == live set at quiescence, distinct stable thread ids with reuse after exit, single taker, stale id never matches, exclusive winner (ownership flag + HB detector kept across slot recycling), constructor/destructor ledger.",
+    ref="§3 C14", technique="deterministic simulation: seeded schedule search (ABA windows), held-set and single-winner oracles")
+CLAIMED["C15"] = dict(
+    text="Real ConcurrentTransientTopic with 1-3 publishers (single and batch, batches crossing the 128-slot block boundary), 1-3 consumers subscribed before/during/after publication with varying batch sizes, close() racing with the last wake-up, 1-3 publish/close/clear cycles; store buffering and futex spurious wakes. Oracle: every consumer's output is exactly the published index sequence with fully visible content (HB race detector on slot payload), publishers never share a slot, end marker only after everything was delivered, consumers terminate (deadlock verdict), clear resets.",
+    ref="§3 C15", technique="deterministic simulation: seeded schedule + store-buffer + futex fault search, per-consumer sequence oracle")
+CLAIMED["C17"] = dict(
+    text="Stacks of Counting / Batch / Cached page allocators (and PageHeap) over a recording upstream, capacities and batch sizes 1-4 with batches larger than the cache so both compensating paths of the underlying queue run, pages handed between threads; ObjectPool in strict and auto-create mode. Oracle: ownership map page -> {upstream, cached, caller}, per-caller patterns and HB detector on page memory, conservation equation at every quiescent point, destruction returns the cache, counting allocator equals pages held; pool: never more than n outstanding, exclusive objects, blocked pop resumes (deadlock verdict), recycler once per return, overflow destroyed. One genuine defect found (fixed).",
+    ref="§3 C17", technique="deterministic simulation: seeded schedule search, ownership-map and conservation oracle")
+CLAIMED["C18"] = dict(
+    text="Same hash harness in phase mode: histories of structural operations executed alone (construct default/n, clear, reserve, rehash, copy, move, swap, iterate, size, find) separated by batches of emplace/find run by 1-3 threads under the scheduler (so the chain shape is schedule dependent), compared after every phase with std::map/std::set: size, iteration exactly once, find of present and absent keys, first-inserted mapped values; both build flavours. Two genuine defects found (fixed).",
+    ref="§3 C18", technique="deterministic simulation: seeded phase-history + schedule search against a std reference container")
+CLAIMED["C19"] = dict(
+    text="Real ConcurrentAdder/Summer/Maxer/Miner and (Compact)EnumerableThreadLocal over generations of threads that count and exit (slots of dead threads reused), instances created, destroyed and moved so instance ids and cache-line offsets are recycled, a reader concurrent with writers with scheduling points on the single-writer plain slots. Oracle: exact totals at quiescence incl. dead threads, fresh counters read zero, moves keep totals, concurrent reads equal one prefix per writer (happens-before judged), local() stable/distinct, for_each / for_each_alive sets. One genuine defect fixed, two listed as known findings (maxer/miner concurrent first-count read; numeric-limit sentinel).",
+    ref="§3 C19", technique="deterministic simulation: seeded thread-generation history + schedule search with plain-access preemption, exact-total oracle")
+CLAIMED["C20"] = dict(
+    text="Real LogStreamBuffer / LogEntry / AsyncFileAppender (and AsyncLogStream) on a recording page allocator (page sizes 128-4096) with entry lengths around the inline page capacity and page-table boundaries, 1-3 logging threads, queue capacity 1-8, two file objects one of which rotates its fd, discard, close() after or concurrently with the last writes; writer back-off in virtual time, writev captured in memory. Oracle: scatter list == streamed bytes with every page exactly once; sinks hold each entry once, contiguous, per thread in order, on the right file; page ledger zero, nothing returned early or twice (HB detector + simulated heap). Write-fault mode checks page conservation and termination only. Two genuine defects found (fixed).",
+    ref="§3 C20", technique="deterministic simulation: seeded length/schedule search with in-memory file sink and writev fault injection, byte-exact sink oracle")
+
 NOT_APPLICABLE = {
     "C12": "single-threaded value containers: behaviour is a pure function of the operation sequence; nothing in the statement depends on a schedule, clock, I/O or fault, so deciding it would be property-based testing, not simulation (DESIGN.md §4)",
 }
@@ -55,7 +89,7 @@ def main():
             "thorough_cmd": "./check %s --tier thorough" % pid,
             "evidence_file": "/verif/evidence/%s.json" % pid,
             "replay_cmd_template": "./check %s --replay {path}" % pid,
-            "engine": "sim",
+            "engine": c.get("engine", "sim"),
             "level_claimed": {"category": c.get("level", "exploration"), "text": c["text"], "design_ref": "DESIGN.md " + c["ref"]},
             "level_note": TRUSTED,
             "technique": c["technique"],
@@ -74,7 +108,9 @@ def main():
             "source_commits": [],
             "add_only": True,
         },
-        "engines": [{"name": "sim", "path": "/verif/sim", "serves_properties": sorted(CLAIMED.keys()),
+        "engines": [{"name": "serial", "path": "/verif/serial", "serves_properties": ["C11"],
+                     "kind_free_text": "stream-fault harness: long-lived ASan+UBSan worker processes, harness-owned ZeroCopy streams (chunking, truncation, corruption, Next() failure), seeded enumeration, ddmin over bytes, replay"},
+                    {"name": "sim", "path": "/verif/sim", "serves_properties": sorted(k for k in CLAIMED.keys() if k != "C11"),
                      "kind_free_text": "deterministic simulator: token-passing scheduler over real threads, TSan-ABI memory model with store buffers and vector clocks, simulated futex/mutex/clock/sleep/heap, plan generator, ddmin minimiser, replay"}],
         "checks": checks,
         "not_applicable": na,
